@@ -26,7 +26,7 @@ where
     if let Some(restrictions) = restrictions {
         writeln!(
             writer,
-            "  fn check_restrictions(&self, _restrictions: Option<Rc<restrictions::Restrictions>>) -> error::SoapResult<()>  {{"
+            "  fn check_restrictions(&self, handed_down: Option<Rc<restrictions::Restrictions>>) -> error::SoapResult<()>  {{"
         )?;
 
         writeln!(writer, "        let restrictions = Some(")?;
